@@ -489,7 +489,7 @@ _idem = _pair('c14', 'idempotent', (400, 1500), 'every attribute signature (thor
     dict(fn=H + 'c14.wit_idempotent_param_values', kind='witness', timeout=(60, 60), validate=PLAIN)]
 _rejected = _pair('c14', 'rejected', (300, 600), 'every item class x 4 rejection kinds (unknown keyword, bad origin type, bad attribute part, bad name type) x later same/other name',
                   ['EFLRItem.__init__', 'EFLRSet.register_item', 'EFLRItem._compute_copy_number'], shards=(8, 8))
-_rejapi = _pair('c14', 'rejected_api', (120, 300), 'add_zone(bad domain), add_parameter(bad reference), add_channel(bad cast dtype: str / 0 / empty / False), add_channel(bad data)',
+_rejapi = _pair('c14', 'rejected_api', (120, 300), 'add_zone(bad domain), add_parameter(bad reference), add_channel(bad cast dtype: str / 0 / empty / False), add_channel(bad data), add_channel(valid data + bad cast dtype / property / axis / long name)',
                 ['LogicalFile.add_zone', 'LogicalFile.add_parameter', 'LogicalFile.add_channel'], replay=ST + 'replay_rejected_api', validate=ST + 'replay_rejected_api')
 _isol = _pair('c14', 'isolation', (400, 900), 'two logical files: zone set names from {None,A,B} (different), 6 interleavings of origin/zone additions, explicit/default second origin reference',
               ['LogicalFile.add_origin', 'LogicalFile.add_zone', 'DLISFile.generator', 'EFLRSetsDict.get_or_make_set'], replay=ST + 'replay_isolation', validate=ST + 'replay_isolation') + [
